@@ -69,7 +69,8 @@ namespace ratio
 
     CORE_EXPORT expr type::new_existential()
     {
-        assert(!instances.empty());
+        if (instances.empty()) // a variable of a type without instances has no value to take..
+            throw inconsistency_exception();
         if (instances.size() == 1)
             return *instances.cbegin();
         else
